@@ -134,6 +134,10 @@ func (c07) Cases(tier string, emit func(string, interface{})) {
 		}
 	}
 	emit("race", c07Case{})
+	// cold start, five fresh processes (a first-use race needs a process that has compiled nothing yet)
+	for i := 1; i <= 5; i++ {
+		emit("race", c07Case{Bound: i, Srcs: []int{-1}})
+	}
 }
 
 func serialise(m *sysl.Module) (string, error) {
@@ -177,7 +181,10 @@ func (c07) Run(c core.Case) core.Outcome {
 	case "seq":
 		return c07Seq(cs)
 	case "race":
-		return c07Race()
+		if len(cs.Srcs) == 1 && cs.Srcs[0] == -1 {
+			return c07Race("cold")
+		}
+		return c07Race("")
 	}
 	return c07Pair(cs)
 }
@@ -355,15 +362,21 @@ func c07Pair(cs c07Case) core.Outcome {
 }
 
 // c07Race: builds (cached) and runs the free-running -race monitor.
-func c07Race() core.Outcome {
+func c07Race(mode string) core.Outcome {
 	var o core.Outcome
 	o.Class = "race-monitor"
+	if mode != "" {
+		o.Class = "race-monitor-" + mode
+	}
 	bin := filepath.Join(core.VerifDir(), ".cache", "bin", "vrace")
 	if _, err := os.Stat(bin); err != nil {
 		o.Class = "race-monitor:not-built"
 		return o
 	}
 	cmd := exec.Command("timeout", "-s", "KILL", "600", bin)
+	if mode != "" {
+		cmd = exec.Command("timeout", "-s", "KILL", "600", bin, mode)
+	}
 	cmd.Env = append(os.Environ(), "GORACE=halt_on_error=1 exitcode=66", "GOMEMLIMIT=8GiB")
 	out, err := cmd.CombinedOutput()
 	s := string(out)
@@ -395,7 +408,7 @@ func c07Race() core.Outcome {
 		o.Gap = "race monitor failed: " + err.Error() + ": " + s[:min(len(s), 1000)]
 		return o
 	}
-	o.NonTrivial = "race-monitor"
+	o.NonTrivial = "race-monitor" + mode
 	return o
 }
 
